@@ -9,6 +9,7 @@
 package verifrt
 
 import (
+	"path/filepath"
 	"encoding/json"
 	"fmt"
 	"math/big"
@@ -289,3 +290,50 @@ func OpaqueAlloc(on bool) {}
 
 // CollisionFree switches on the collision-free idealisation of hash functions (engine only).
 func CollisionFree() {}
+
+// --- file system with crash points (engine: model of engine/interp/models_fs.go) -------------
+
+var fsDir string
+
+// FSPath names a file of the harness's private file system (native: a fresh temporary directory).
+func FSPath(name string) string {
+	if fsDir == "" {
+		d, err := os.MkdirTemp("", "verif-fs-")
+		if err != nil {
+			panic(err)
+		}
+		fsDir = d
+	}
+	return filepath.Join(fsDir, name)
+}
+
+// FSInit creates a file with durable content.
+func FSInit(path string, data []byte) {
+	if err := os.WriteFile(path, data, 0o600); err != nil {
+		panic(err)
+	}
+}
+
+// Crash runs f; under the engine the process may stop before any file-system call inside f (or
+// right after it) and Crash then reports true. Natively f always runs to completion.
+func Crash(f func()) bool { f(); return false }
+
+// FSDurable returns what the disk holds for path (after a crash: the synced state plus any
+// prefix of the unsynced operations; natively: the file as it is).
+func FSDurable(path string) ([]byte, bool) {
+	data, err := os.ReadFile(path)
+	if err != nil {
+		return nil, false
+	}
+	return data, true
+}
+
+// FSList lists the files of the private file system (engine) / temporary directory (native).
+func FSList() []string {
+	ents, _ := os.ReadDir(fsDir)
+	var out []string
+	for _, e := range ents {
+		out = append(out, filepath.Join(fsDir, e.Name()))
+	}
+	return out
+}
